@@ -1960,7 +1960,7 @@ if hdf:
           return has_key
       __contains__.__doc__ = dict.__contains__.__doc__
       def __iter__(self):
-          return iter(self.keys())
+          return iter(self.__asdict__().keys())
       __iter__.__doc__ = dict.__iter__.__doc__
       def items(self):
           return ItemsView(self) #XXX: show items not dict
